@@ -16,7 +16,7 @@ BASE_OPTS = [
     OrderedDict([('u', '2'), ('fill', '5 (0 0 1)'), ('imp:n', '1')]),
 ]
 BUT_OPTS = {
-    'mat': ['7'], 'rho': ['-3.5', '0.02'], 'u': ['9'], 'fill': ['6', '6 (2 0 0)'], 'trcl': ['(0 3 0)', '4'],
+    'mat': ['7'], 'rho': ['-3.50', '2.0-2'], 'u': ['9'], 'fill': ['6', '6 (2 0 0)'], 'trcl': ['(0 3 0)', '4'],
     'imp:n': ['0', '3'],
 }
 
